@@ -43,6 +43,7 @@ impl NotificationHandler<DidCloseTextDocument> for DidCloseTextDocumentHandler {
             .lock()
             .unwrap()
             .remove(&params.text_document.uri.to_file_path().unwrap());
+
         Ok(())
     }
 }
@@ -53,31 +54,52 @@ fn register_document(ctx: &mut LspContext, uri: &Url, source: &str) {
     ctx.perform_codegen();
 }
 
-fn publish_diagnostics(ctx: &LspContext) -> MosResult<()> {
+fn publish_diagnostics(ctx: &mut LspContext) -> MosResult<()> {
     log::trace!("Publish diagnostics");
 
     let mut result: HashMap<String, Vec<Diagnostic>> =
         to_diagnostics(&ctx.error).into_iter().into_group_map();
 
     // Grab all the files in the project
-    if let Some(tree) = ctx.tree.as_ref() {
-        let filenames = tree
+    let filenames = match ctx.tree.as_ref() {
+        Some(tree) => tree
             .code_map
             .files()
             .iter()
             .map(|file| file.name().to_string())
-            .collect_vec();
+            .collect_vec(),
+        None => vec![],
+    };
 
-        // Publish errors (or no errors!) for every file
-        for filename in filenames {
-            let diags = result.remove(filename.as_str()).unwrap_or_default();
-            let params = PublishDiagnosticsParams::new(
-                Url::from_file_path(filename).unwrap(),
-                diags,
-                None, // todo: handle document version
-            );
-            ctx.publish_notification::<PublishDiagnostics>(params)?;
+    // Files that are no longer part of the project should not keep showing their old diagnostics
+    let no_longer_in_project = ctx
+        .files_with_diagnostics
+        .iter()
+        .filter(|filename| !filenames.contains(filename))
+        .cloned()
+        .sorted()
+        .collect_vec();
+    for filename in no_longer_in_project {
+        let params =
+            PublishDiagnosticsParams::new(Url::from_file_path(&filename).unwrap(), vec![], None);
+        ctx.publish_notification::<PublishDiagnostics>(params)?;
+        ctx.files_with_diagnostics.remove(&filename);
+    }
+
+    // Publish errors (or no errors!) for every file
+    for filename in filenames {
+        let diags = result.remove(filename.as_str()).unwrap_or_default();
+        if diags.is_empty() {
+            ctx.files_with_diagnostics.remove(&filename);
+        } else {
+            ctx.files_with_diagnostics.insert(filename.clone());
         }
+        let params = PublishDiagnosticsParams::new(
+            Url::from_file_path(filename).unwrap(),
+            diags,
+            None, // todo: handle document version
+        );
+        ctx.publish_notification::<PublishDiagnostics>(params)?;
     }
     Ok(())
 }
